@@ -99,6 +99,8 @@ structure Edge where
   labelH : Int
   labelW : Int
   line : Int
+  srcPerim : String       -- "yes" / "no": first point within 2 px of the source's real outline; "rect": outline = box
+  dstPerim : String
 deriving Repr
 
 /-- `GetModifierElementAdjustments`: (dx, dy) of the 3D / multiple decoration -/
@@ -123,14 +125,18 @@ def extentRects (o : Obj) : List Box :=
 def rectangularShapes : List String :=
   ["", "rectangle", "square", "text", "code", "class", "sql_table", "image", "sequence_diagram", "hierarchy"]
 
-/-- C20 for one endpoint: on the border of one of the extent rectangles; for a non-rectangular outline the
-    traced point lies on the outline, which is inside the box: then only "inside the extent" is evaluated here
-    (the outline itself is evaluated by the harness with lib/geo, see `perim`) -/
-def endsOnExtent (tol : Rat) (o : Obj) (p : Pt) : Bool :=
-  if rectangularShapes.contains o.shape then
+/-- the extent rectangles other than the shape's own box (labels, icons, and their decorated copies) -/
+def attachmentRects (o : Obj) : List Box := (extentRects o).filter (· != o.box)
+
+/-- C20 for one endpoint.  Rectangular outline: on the border of one of the extent rectangles.  Other outlines
+    (`perim` = what the harness measured with lib/shape + lib/geo: the point is within 2 px of the real outline):
+    on the outline, or on the border of an outside label / icon / decorated copy; in any case inside the extent. -/
+def endsOnExtent (tol : Rat) (o : Obj) (perim : String) (p : Pt) : Bool :=
+  if rectangularShapes.contains o.shape || perim == "rect" then
     (extentRects o).any fun r => decide (r.onBorder tol p)
   else
-    (extentRects o).any fun r => decide (r.containsTol tol p)
+    ((extentRects o).any fun r => decide (r.containsTol tol p)) &&
+      (perim == "yes" || (attachmentRects o).any fun r => decide (r.onBorder tol p))
 
 /-- C17: sizes are non-negative (finiteness is decided when the exact rationals are read: a NaN or an infinity
     is not a rational) and routes have at least two points -/
